@@ -31,6 +31,15 @@ def hx(test, quick, thorough, shards=16, **kw):
 
 TRUST = "trusts go-statemachine's in-order delivery of notifications (used to observe which events were applied), the recording doubles of the harness and rapid's generators/shrinker"
 
+prop("C01", "Completed means delivered", "exploration", "e2e",
+     "scenario-based property testing (rapid) of two complete nodes in one process (mocknet + real go-graphsync): relational oracle between both managers and an independent IPLD walk of the payload (block set, bytes, unique size)",
+     [hx("TestC01_E2E", 250, 6400, timeout_quick=1500, timeout_thorough=5400), hx("TestC03_Mgrx", 1500, 16000)],
+     ["the property is conditional on the initiator reporting Completed after an Accept; runs that end otherwise (graphsync's asynchronous requester-side pause, link verification after re-requests) are classified and counted in the evidence, never judged",
+      "goroutine interleavings inside graphsync / libp2p are sampled by the Go scheduler, not controlled; a failing case carries its two-sided event history in the replay file",
+      "the clause about a pull satisfied from the initiator's own store is checked on the manager level (mgrx), real graphsync always produces a response before completion"],
+     "generated scenarios over payload shape, direction, stores, validator scripts, pause / voucher triggers and cut + restart points; schedules are sampled",
+     "trusts libp2p mocknet, go-graphsync and go-ipld-prime's traversal (used as the independent walk)")
+
 prop("C02", "Terminal statuses are final", "exploration", "fsmx",
      "stateful property testing (rapid): before/after equality of all accessors, raw persisted bytes and publication count after every generated stimulus on a terminated channel; plus one complete enumeration of terminal status x event method x reopen",
      [hx("TestC02_Fsmx", 1500, 32000), hx("TestC02_FsmxTable", 2, 4, shards=1), hx("TestC02_Mgrx", 1200, 32000)],
@@ -170,6 +179,7 @@ prop("C19", "Channel state views are total and self-consistent", "exploration", 
      TRUST)
 
 ENGINES = [
+    {"name": "e2e", "path": "harness/hx (e2e_*_test.go)", "serves_properties": ["C01"], "kind_free_text": "rapid scenario tests over two full nodes: libp2p mocknet, real go-graphsync, real network/transport/manager"},
     {"name": "gsx", "path": "harness/hx (gsx_*_test.go), harness/dbl/gs.go", "serves_properties": ["C05", "C07", "C09", "C10", "C11", "C16", "C20"], "kind_free_text": "rapid stateful tests of the real graphsync transport over a fake GraphExchange and a scriptable events handler"},
     {"name": "mon", "path": "harness/vt/mon_test.go", "serves_properties": ["C14"], "kind_free_text": "rapid property tests of channelmonitor in a testing/synctest bubble (go1.26.8)"},
     {"name": "netx", "path": "harness/vt/netx_test.go", "serves_properties": ["C15"], "kind_free_text": "rapid property tests of network.NewFromLibp2pHost over a scripted host double in a testing/synctest bubble (go1.26.8)"},
